@@ -113,7 +113,7 @@ pub fn run(ctx: &Arc<Ctx>) {
     refmodels::selftest::run(&["sm3", "sm2"]).unwrap_or_else(|e| ctx.machinery_error(format!("reference self-test failed: {}", e)));
     let pr = sm2::params();
     let (n, p) = (pr.n.clone(), pr.p.clone());
-    ctx.set_rule("base ciphertexts (message lengths {1,17,32,33}, thorough 1..=40, x 2 orders x 2 C1 encodings, made by the reference encryptor): every single-bit flip of the whole ciphertext; every truncation length; C1 replaced by (x,y+-1), (x+-1,y), (0,0), points on y^2=x^3+ax+b' (incl. an order-2 point) with C2,C3 completed correctly for that point, compressed x that is a non-residue, x+p aliases of an on-curve point with tiny x, compressed non-residue x with the body completed for the bogus root, a ciphertext whose KDF output is all zero, C1 of another ciphertext; C2/C3 swapped between two ciphertexts. The ASN.1 form through decrypt_asn1 with both values of its compressed flag: every single-bit flip of C1.x, C1.y, C3 and C2 re-encoded as a well-formed GM/T 0009 document, y negated, y + p. Oracle: result must be Err — never Ok(anything), never a panic; the untouched ciphertext must decrypt.");
+    ctx.set_rule("base ciphertexts (message lengths {1,17,32,33}, thorough 1..=40, x 2 orders x 2 C1 encodings, made by the reference encryptor): every single-bit flip of the whole ciphertext; every truncation length; C1 replaced by (x,y+-1), (x+-1,y), (0,0), points on y^2=x^3+ax+b' (incl. an order-2 point) with C2,C3 completed correctly for that point, compressed x that is a non-residue, x+p aliases of an on-curve point with tiny x, compressed non-residue x with the body completed for the bogus root, a ciphertext whose KDF output is all zero, C1 of another ciphertext; C2/C3 swapped between two ciphertexts. The ASN.1 form through decrypt_asn1 with both values of its compressed flag: every single-bit flip of C1.x, C1.y, C3 and C2 re-encoded as a well-formed GM/T 0009 document, y negated, y + p, off-curve (x, y) with the original body and with the body completed for the foreign point, empty and truncated C2. Oracle: result must be Err — never Ok(anything), never a panic; the untouched ciphertext must decrypt.");
     let mut g = SplitMix::new(ctx.seed, "c06");
     let lens: Vec<usize> = ctx.tier.pick(vec![1, 17, 32, 33], (1..=40).collect());
     let d = hb(ANNEX_D);
@@ -291,6 +291,21 @@ pub fn run(ctx: &Arc<Ctx>) {
                 c2[bit / 8] ^= 0x80 >> (bit % 8);
                 cases.push(mk(refmodels::der::sm2_cipher_encode(&x, &y, &base.c3, &c2), None, "asn1-bitflip-C2"));
             }
+            // invalid-curve points through the ASN.1 form, with the body completed for [d](x, y) on the foreign curve
+            for (fx, fy, lab) in [(BigUint::from(1u32), BigUint::from(1u32), "(1,1)"), (x.clone(), (&y + 1u32) % &p, "(x,y+1)"), ((&x + 1u32) % &p, y.clone(), "(x+1,y)"), (BigUint::from(2u32), BigUint::from(0u32), "(2,0)")] {
+                let fpt: Pt = Some((fx.clone(), fy.clone()));
+                if sm2::params().curve.on_curve(&fpt) {
+                    continue;
+                }
+                if let Some((c2f, c3f)) = complete(dd, &fpt, &msg) {
+                    cases.push(mk(refmodels::der::sm2_cipher_encode(&fx, &fy, &c3f, &c2f), None, &format!("asn1-off-curve-{}/invalid-curve-completed", lab)));
+                }
+                cases.push(mk(refmodels::der::sm2_cipher_encode(&fx, &fy, &base.c3, &base.c2), None, &format!("asn1-off-curve-{}", lab)));
+            }
+            // the ciphertext octets removed altogether (empty OCTET STRING): nothing to decrypt, never Ok
+            cases.push(mk(refmodels::der::sm2_cipher_encode(&x, &y, &base.c3, &[]), None, "asn1-empty-C2"));
+            cases.push(mk(refmodels::der::sm2_cipher_encode(&BigUint::from(1u32), &BigUint::from(1u32), &[0u8; 32], &[]), None, "asn1-empty-C2/fabricated-point"));
+            cases.push(mk(refmodels::der::sm2_cipher_encode(&x, &y, &base.c3, &base.c2[..base.c2.len() - 1]), None, "asn1-C2-truncated"));
             // y replaced by p - y (the other root: a different valid point) and by y + p (unreduced)
             cases.push(mk(refmodels::der::sm2_cipher_encode(&x, &(&p - &y), &base.c3, &base.c2), None, "asn1-C1.y-negated"));
             cases.push(mk(refmodels::der::sm2_cipher_encode(&x, &(&y + &p), &base.c3, &base.c2), None, "asn1-C1.y+p"));
